@@ -288,3 +288,80 @@ package bus
 //@   loop 1:
 //@     invariant !o.signalsMutex.lockw && o.signalsMutex.lockr == 0
 //@     invariant forall k int {signals[k]} :: 0 <= k && k < len(signals) ==> signals[k].context != nil
+
+// ---- exactly one answer, its own (C04)
+// A mailbox hands only calls (type 1) and posts (type 4) to its object.
+//@ interface (r Receiver) Receive(m *net.Message, from Channel) (err error)
+//@   trusted
+//@   modifies everything
+//@ func NewMailBox$1()
+//@   tags C04
+//@   opt recv_nonnil yes
+//@   requires r != nil && box != nil
+//@   modifies everything
+//@   call Receive#1: assert[C04] mail.Msg.Header.Type == 1 || mail.Msg.Header.Type == 4
+//@   loop 1:
+//@     invariant r != nil && box != nil
+
+// Replies and errors carry the request's id, service, object and action.
+//@ func (c *channel) Send(msg *net.Message) (err error)
+//@   tags C04
+//@   requires msg != nil && c.endpoint != nil
+//@   modifies c.endpoint.sentcount, c.endpoint.lastid, c.endpoint.lasttype, c.endpoint.lastservice, c.endpoint.lastobject, c.endpoint.lastaction
+//@   ensures[C04] c.endpoint.sentcount == old(c.endpoint.sentcount) + 1 && c.endpoint.lastid == msg.Header.ID && c.endpoint.lasttype == msg.Header.Type && c.endpoint.lastservice == msg.Header.Service && c.endpoint.lastobject == msg.Header.Object && c.endpoint.lastaction == msg.Header.Action
+//@ func (c *channel) SendReply(msg *net.Message, response []byte) (err error)
+//@   tags C04
+//@   requires msg != nil && c.endpoint != nil
+//@   modifies c.endpoint.sentcount, c.endpoint.lastid, c.endpoint.lasttype, c.endpoint.lastservice, c.endpoint.lastobject, c.endpoint.lastaction
+//@   ensures[C04] c.endpoint.sentcount == old(c.endpoint.sentcount) + 1 && c.endpoint.lasttype == 2
+//@   ensures[C04] c.endpoint.lastid == msg.Header.ID && c.endpoint.lastservice == msg.Header.Service && c.endpoint.lastobject == msg.Header.Object && c.endpoint.lastaction == msg.Header.Action
+//@ func errorPaylad(err error) (result []byte)
+//@   trusted
+//@   pure
+//@ func (c *channel) SendError(msg *net.Message, e error) (err error)
+//@   tags C04
+//@   requires msg != nil && c.endpoint != nil && e != nil
+//@   modifies c.endpoint.sentcount, c.endpoint.lastid, c.endpoint.lasttype, c.endpoint.lastservice, c.endpoint.lastobject, c.endpoint.lastaction
+//@   ensures[C04] c.endpoint.sentcount == old(c.endpoint.sentcount) + 1 && c.endpoint.lasttype == 3
+//@   ensures[C04] c.endpoint.lastid == msg.Header.ID && c.endpoint.lastservice == msg.Header.Service && c.endpoint.lastobject == msg.Header.Object && c.endpoint.lastaction == msg.Header.Action
+
+// Message ids: allocated under the mutex, strictly advancing by 2 (distinct for fewer than 2^31 calls).
+//@ guarded_by (c *client) c.messageIDMutex: c.messageID
+//@ func (c *client) nextMessageID() (result uint32)
+//@   tags C04
+//@   requires !c.messageIDMutex.lockw
+//@   modifies c.messageIDMutex.lockw, c.messageID
+//@   ensures[C04] !c.messageIDMutex.lockw
+//@   ensures[C04] result == uint32(at_lock(c.messageID) + 2) && at_unlock(c.messageID) == result
+
+// The reply filter of a call selects exactly (service, object, action, id) and removes itself.
+//@ func (c *client) Call$1(hdr *net.Header) (matched bool, keep bool)
+//@   tags C04
+//@   requires hdr != nil
+//@   pure
+//@   ensures[C04] matched <==> (hdr.Service == serviceID && hdr.Object == objectID && hdr.Action == actionID && hdr.ID == messageID)
+//@   ensures[C04] keep <==> !matched
+
+// The server-side connection filter passes only calls, posts, capability and cancel messages.
+//@ func (s *server) handle$1(hdr *net.Header) (matched bool, keep bool)
+//@   tags C04
+//@   requires hdr != nil
+//@   pure
+//@   ensures[C04] keep && (matched <==> !(hdr.Type == 2 || hdr.Type == 3 || hdr.Type == 5 || hdr.Type == 8))
+
+// client.Call: the reply handler is registered before the call message is sent (so a reply that
+// arrives before Send returns is dispatched to it), the message sent is a Call carrying a fresh id,
+// and a failed Send removes the handler and reports an error.
+//@ func (c *client) newMessage(serviceID uint32, objectID uint32, actionID uint32, payload []byte) (result net.Message)
+//@   tags C04
+//@   requires !c.messageIDMutex.lockw
+//@   modifies c.messageIDMutex.lockw, c.messageID
+//@   ensures[C04] result.Header.Type == 1 && result.Header.Service == serviceID && result.Header.Object == objectID && result.Header.Action == actionID
+//@   ensures[C04] !c.messageIDMutex.lockw
+//@ func (c *client) Call(cancel <-chan struct{}, serviceID uint32, objectID uint32, actionID uint32, payload []byte) (result []byte, err error)
+//@   tags C04 C11
+//@   opt recv_nonnil yes
+//@   requires c.endpoint != nil && !c.messageIDMutex.lockw
+//@   modifies everything
+//@   call Send#1: assert[C04,C11] c.endpoint.nhandlers == old(c.endpoint.nhandlers) + 1
+//@   ensures[C04] !c.messageIDMutex.lockw
